@@ -457,10 +457,13 @@ def run(ctx) -> None:  # noqa: F811
     tests = [n for n in cfg.nodes if n.kind == "test" and isinstance(n.ast, _ast.If) and "base_tilt" in _nt(n.ast.test)
              and any(isinstance(c, _ast.Call) and _cn(c) == "_apply_tilt_to_fresnel_propagator_array"
                      for s in n.ast.body for c in _ast.walk(s))]
-    ctx.require(len(tests) >= 1, "_calculate_array: base-tilt application not found")
     rets = [n for n in cfg.nodes if n.kind == "stmt" and isinstance(n.ast, _ast.Return)]
     ctx.require(len(rets) >= 1, "_calculate_array: no return")
-    for r in rets:
+    if not tests:
+        ctx.violation("R-BASETILT-ALWAYS", f"{f.qualname}:base-tilt", f.where,
+                      "no `if waves.base_tilt ...: _apply_tilt_to_fresnel_propagator_array(...)` is left in "
+                      "_calculate_array: a scalar beam tilt never reaches the propagator", key_detail="missing")
+    for r in (rets if tests else []):
         ok = any(cfg.dominates(t.idx, r.idx) for t in tests)
         ctx.check(ok, "R-BASETILT-ALWAYS", f"{f.qualname}:return `{_nt(r.ast)[:30]}`", f.loc(r.ast),
                   "the base-tilt test dominates this return",
